@@ -315,3 +315,36 @@ Proof.
   intros Hwf Hc enc. destruct (amessage_spec a tags args Hwf) as [_ H].
   rewrite (H buf). fold enc. rewrite Hc. reflexivity.
 Qed.
+
+(* ---- the region in which the encoder model IS the code ------------------------
+   The model measures and writes in unbounded Z; the code measures with
+   `unsigned` and takes blob lengths as int32.  The property theorems are
+   stated inside [code_range], where no wrap-around can occur; outside it
+   model and code differ and nothing is claimed. *)
+Definition blob_small (p : payload) : Prop :=
+  match p with PBlob len _ => len < 2147483648 | _ => True end.
+Definition code_range (a tags : list byte) (args : list payload) : Prop :=
+  zlen (enc_spec a tags args) < 4294967296 /\ Forall blob_small args.
+
+Theorem size_null_spec_r a tags args :
+  args_wf tags args -> code_range a tags args ->
+  size_null a tags args = Ok (zlen (enc_spec a tags args)).
+Proof. intros H _. exact (size_null_spec a tags args H). Qed.
+
+Theorem amessage_spec_r a tags args :
+  args_wf tags args -> code_range a tags args ->
+  let enc := enc_spec a tags args in
+  amessage None a tags args = Ok (zlen enc, None) /\
+  forall buf,
+    amessage (Some buf) a tags args =
+    if zlen buf <? zlen enc then Ok (0, Some (zeros (zlen buf)))
+    else Ok (zlen enc, Some (enc ++ skipn (length enc) buf)).
+Proof. intros H _. exact (amessage_spec a tags args H). Qed.
+
+Corollary amessage_fixed_capacity_r cap a tags args buf :
+  args_wf tags args -> code_range a tags args -> zlen buf = cap ->
+  let enc := enc_spec a tags args in
+  amessage (Some buf) a tags args =
+  if cap <? zlen enc then Ok (0, Some (zeros cap))
+  else Ok (zlen enc, Some (enc ++ skipn (length enc) buf)).
+Proof. intros H _. exact (amessage_fixed_capacity cap a tags args buf H). Qed.
